@@ -164,6 +164,7 @@ inductive Rdr where
   | liar (claim : Nat) (fill : UInt8)       -- harness: fills the whole buffer, returns `claim`
   | fail (fill : UInt8)                     -- harness: fills the whole buffer, returns `Err`
   | bufr (cap : Nat) (buffered : List UInt8) (r : Rdr)   -- `io::BufReader::with_capacity(cap, r)`
+  | file (bs : List UInt8)                  -- `fs::File` (a regular file holding `bs`, read from its start)
   deriving Repr, Inhabited
 
 inductive RdRet where
@@ -185,6 +186,8 @@ def overlay (a b : List UInt8) : List UInt8 := b ++ a.drop b.length
 
 def Rdr.read : Rdr → Nat → ReadRes
   | .slice bs, n => ⟨bs.take n, .ok (min n bs.length), .slice (bs.drop n)⟩
+  -- a regular file delivers as much as is asked for and left (assumed; checked by correspondence)
+  | .file bs, n => ⟨bs.take n, .ok (min n bs.length), .file (bs.drop n)⟩
   | .rep b, n => ⟨List.replicate n b, .ok n, .rep b⟩
   | .empty, _ => ⟨[], .ok 0, .empty⟩
   | .liar c f, n => ⟨List.replicate n f, .ok c, .liar c f⟩
